@@ -15,6 +15,7 @@
 //	track <id> <p|t|f|c|r> <stage>              CRCProposalTracking Progress/Terminated/Finalized/Common/Rejected, real check
 //	withdraw <id> <amount>                      CRCProposalWithdraw (payload v1), real check
 //	close <id> <target>                         CRCProposal of type CloseProposal, real check
+//	redo                                        this block is connected, disconnected (RollbackTo) and connected again
 //	chg                                         a committee change recomputes the used amount at the end of this block (hook)
 //	fund <v>                                    environment: payment to the CR expenses address (committee UTXO)
 //	withdraw0 <id> <inp> <out0> <out1|-> <toC> <utxos>   CRCProposalWithdraw payload v0 spending committee UTXOs, real check
@@ -122,6 +123,7 @@ type world struct {
 	wtx     map[common.Uint256]int // withdraw tx hash -> proposal id
 	cutxos  []*cutxo               // UTXOs of the CR expenses (committee) address
 	cIn     map[int]bool           // committee utxos used as inputs in the open block
+	redo    bool                   // disconnect the block again (Committee.RollbackTo) and connect it a second time
 	chg     bool                   // recompute the used amount (committee change) at the end of the open block
 }
 
@@ -361,6 +363,16 @@ func exec(t []string) string {
 		}
 		blk := &types.Block{Header: ctypes.Header{Height: w.height, Timestamp: w.height * 120}, Transactions: w.pending}
 		w.cm.ProcessBlock(blk, nil)
+		if w.redo && w.height < 2 { // Committee.RollbackTo(0) never terminates (uint32 loop counter); nothing to disconnect to
+			w.redo = false
+		}
+		if w.redo { // a reorganisation that disconnects this block and connects the same block again must change nothing
+			w.redo = false
+			if err := w.cm.RollbackTo(w.height - 1); err != nil {
+				return "rollback-error"
+			}
+			w.cm.ProcessBlock(blk, nil)
+		}
 		w.inBlock = false
 		for id := range w.cIn {
 			w.cutxos[id].spent = true
@@ -460,6 +472,9 @@ func exec(t []string) string {
 		return v
 	case "chg":
 		w.chg = true
+		return "queued"
+	case "redo":
+		w.redo = true
 		return "queued"
 	case "close": // close <id> <target>: CRCProposal of type CloseProposal, real context check
 		id := int(i64(t[1]))
